@@ -109,6 +109,9 @@ func (e *Env) lookup(name string) (Val, bool) {
 	}
 	c := e.c
 	if e.fn == c.fn {
+		if t, ok := e.st.ghostInts[name]; ok {
+			return VInt{t}, true
+		}
 		if v, ok := c.ghosts[name]; ok {
 			return v, true
 		}
@@ -625,6 +628,13 @@ func (e *Env) call(x ECall) Val {
 			parts = append(parts, eq(a[i], b[i]))
 		}
 		return VBool{and(parts...)}
+	case "strlt": // the string order used by Go's < (uninterpreted)
+		a, aok := e.eval(x.Args[0]).(VStr)
+		b, bok := e.eval(x.Args[1]).(VStr)
+		if aok && bok {
+			c.eng.needStrLess = true
+			return VBool{app("strless", a.Arr, a.Off, a.Len, b.Arr, b.Off, b.Len)}
+		}
 	case "isnil":
 		v := e.eval(x.Args[0])
 		return VBool{e.valEq(v, VInt{"0"}, x)}
